@@ -98,6 +98,9 @@ func runC06(c *Check) {
 	c.selectOnOriginalStack(byName)
 	c.rangeComparesScaledValues()
 	c.pseudoFramesBeforeFilters()
+	c.hideOnlyMatched(byName)
+	c.keyedTagMatchesValue(compileTag)
+	c.rangeBoundUnits()
 }
 
 // pseudoFramesBeforeFilters (R3e): tagroot/tagleaf pseudo frames are ordinary frames for
